@@ -53,6 +53,8 @@ class Module:
         self.path = path
         self.src = path.read_text(encoding="utf-8")
         self.tree = ast.parse(self.src, filename=str(path))
+        from .canon import normalize_module
+        self.normalised = normalize_module(self.tree)  # keyword -> positional for the callees read positionally, a, b = x, y split, ...
         for parent in ast.walk(self.tree):
             for child in ast.iter_child_nodes(parent):
                 child._parent = parent  # type: ignore[attr-defined]
@@ -203,7 +205,13 @@ class Check:
             if t not in self.assumptions:
                 self.assumptions.append(t)
 
-    def fn(self, rel, qual, canonical=False):
+    def fn(self, rel, qual, canonical=False, single_exit=False):
+        if single_exit:
+            cache = self.__dict__.setdefault("_se_cache", {})
+            if (rel, qual) not in cache:
+                from .canon import single_exit as _se
+                cache[(rel, qual)] = _se(self.fn(rel, qual))
+            return cache[(rel, qual)]
         if canonical:
             cache = self.__dict__.setdefault("_canon_cache", {})
             if (rel, qual) not in cache:
